@@ -254,3 +254,26 @@ Proof. apply bytes_eqb_eq. reflexivity. Qed.
 
 Lemma name_eqb_refl n : name_eqb n n = true.
 Proof. apply name_eqb_eq. reflexivity. Qed.
+
+(* ---- consequences of a round trip ---- *)
+
+Lemma roundtrip_paths_agree {T} (c : codec T) dom norm : roundtrip c dom norm -> paths_agree c dom.
+Proof.
+  intros H o v t Hd E. destruct (H o v Hd) as [t' [E' [H1 H2]]].
+  rewrite E in E'. inversion E'; subst. rewrite H1, H2. reflexivity.
+Qed.
+
+Lemma roundtrip_enc_total {T} (c : codec T) dom norm : roundtrip c dom norm -> enc_total c dom.
+Proof. intros H o v Hd. destruct (H o v Hd) as [t [E _]]. exists [t]. exact E. Qed.
+
+Lemma roundtrip_consequences : forall T (c : codec T) dom norm,
+  roundtrip c dom norm -> paths_agree c dom /\ enc_total c dom.
+Proof. intros T c dom norm H. exact (conj (roundtrip_paths_agree c dom norm H) (roundtrip_enc_total c dom norm H)). Qed.
+
+Lemma token_streams_wellbracketed : forall ts : list tree,
+  balanced (tokens_of_forest ts) = true /\ parse_forest (S (fsize ts)) (tokens_of_forest ts) = Some (ts, []).
+Proof. intro ts. exact (conj (balanced_forest ts) (forest_parses ts)). Qed.
+
+Lemma schema_unmarshal_total : forall A (fs : list (Schema.field A)) xn init t,
+  Forall field_safe fs -> safe (unmarshal_struct xn fs init t).
+Proof. intros A fs xn init t H. exact (unmarshal_struct_safe fs xn init t H). Qed.
